@@ -86,6 +86,42 @@ SweepPrograms ==
   \cup { << C(f, TRUE, [x |-> 0]), C("IndividualTrafficSelector", FALSE, IF six THEN Sel6(pr, sp, ep, 43) ELSE Sel4(pr, sp, ep, 44)) >> :
             f \in {"TrafficSelectorInitiator", "TrafficSelectorResponder"}, six \in BOOLEAN, pr \in {0, 255}, sp \in {0, 65535}, ep \in {0, 1, 65535} }
 
+\* ---- scalar arguments one at a time over their WHOLE range (8-bit) or over the powers of two and their neighbours (16-bit): a builder
+\* puts its arguments into the payload whatever their values -- zero included, also where a flag says "this value is specified"
+EdgeProgs(e, cl) ==
+  { << C("Nonce", FALSE, [data |-> e]) >>, << C("KeyExchange", FALSE, [grp |-> 2, data |-> e]) >>, << C("Certificate", FALSE, [enc |-> 4, data |-> e]) >>,
+    << C("IdentificationInitiator", FALSE, [idt |-> 2, data |-> e]) >>, << C("Authentication", FALSE, [meth |-> 2, data |-> e]) >>,
+    << C("Notification", FALSE, [proto |-> 3, ntype |-> 16393, spi |-> e, data |-> e]) >>, << C("EAP5GNAS", FALSE, [id |-> 1, nas |-> e]) >>,
+    << C("Configuration", TRUE, [cft |-> 1]), C("ConfigurationAttribute", FALSE, [t |-> 1, v |-> e]) >>,
+    << C("EAPExpanded", FALSE, [code |-> 2, id |-> 5, vid |-> 10415, vtype |-> << 0, 0, 0, 3 >>, data |-> e]) >>,
+    << C("DeletePayload", FALSE, [proto |-> 3, spisz |-> 4, num |-> 3, spis |-> << Edge(cl, 4, 1), Edge(cl, 4, 1), Edge(cl, 4, 2) >>]) >> }
+Pow16 == UNION { {q - 1, q, q + 1} : q \in {2, 4, 16, 128, 256, 1024, 4096, 32768} } \cup {0, 65534, 65535}
+Qos(pdu, qfis, dcsi, dscpi, dscp) == C("Notify5G_QOS_INFO", FALSE, [pdu |-> pdu, qfis |-> qfis, dcsi |-> dcsi, dscpi |-> dscpi, dscp |-> dscp])
+ScalarSweeps ==
+  { << Qos(5, << 9 >>, v % 2 = 0, TRUE, v) >> : v \in 0..255 } \cup { << Qos(v, << 1, 2 >>, v % 3 = 0, v % 2 = 0, 46) >> : v \in 0..255 }
+  \cup { << Qos(1, << v >>, FALSE, FALSE, v) >> : v \in 0..255 } \cup { << Qos(2, << 0, v, 0 >>, TRUE, TRUE, 0) >> : v \in {0, 1, 63, 64, 128, 255} }
+  \cup { << C("Notification", FALSE, [proto |-> v, ntype |-> 16384 + v, spi |-> D(v % 5, 3), data |-> D(v % 3, 4)]) >> : v \in 0..255 }
+  \cup { << C("Notification", FALSE, [proto |-> 1, ntype |-> v, spi |-> << >>, data |-> << 7 >>]) >> : v \in Pow16 }
+  \cup { << C("Certificate", FALSE, [enc |-> v, data |-> D(1 + (v % 4), 6)]) >> : v \in 0..255 }
+  \cup { << C("IdentificationInitiator", FALSE, [idt |-> v, data |-> D(1 + (v % 4), 9)]) >> : v \in 0..255 }
+  \cup { << C("IdentificationResponder", FALSE, [idt |-> v, data |-> D(1 + (v % 4), 11)]) >> : v \in 0..255 }
+  \cup { << C("Authentication", FALSE, [meth |-> v, data |-> D(1 + (v % 4), 12)]) >> : v \in 0..255 }
+  \cup { << C("KeyExchange", FALSE, [grp |-> v, data |-> D(2, 7)]) >> : v \in Pow16 }
+  \cup { << C("Configuration", FALSE, [cft |-> v]), C("ConfigurationAttribute", FALSE, [t |-> v * 128 + (v % 128), v |-> D(v % 3, 23)]) >> : v \in 0..255 }
+  \cup { << C("EAP", FALSE, [code |-> 1 + (v % 4), id |-> v]) >> : v \in 0..255 }
+  \cup { << C("EAPSuccess", FALSE, [id |-> v]) >> : v \in 0..255 } \cup { << C("EAPfailure", FALSE, [id |-> v]) >> : v \in 0..255 }
+  \cup { << C("EAP5GStart", FALSE, [id |-> v]) >> : v \in 0..255 } \cup { << C("EAP5GNAS", FALSE, [id |-> v, nas |-> D(1 + (v % 5), 18)]) >> : v \in 0..255 }
+  \cup { << C("DeletePayload", FALSE, [proto |-> v, spisz |-> 4, num |-> 1, spis |-> << D(4, 16) >>]) >> : v \in 0..255 }
+  \cup { << C("NotifyNAS_TCP_PORT", FALSE, [port |-> v]) >> : v \in Pow16 \ {0} }        \* (the property says: non-zero ports)
+  \cup { << C(f, FALSE, [ip |-> a]) >> : f \in {"NotifyNAS_IP4_ADDRESS", "NotifyUP_IP4_ADDRESS"}, a \in Addr4s \cup { << 1, 0, 0, 0 >>, << 0, 0, 1, 0 >>, << 128, 128, 128, 128 >> } }
+  \cup { << C("Encrypted", FALSE, [next |-> v, data |-> D(16, 22)]) >> : v \in 0..255 }
+  \cup { << C("SecurityAssociation", TRUE, [x |-> 0]), C("Proposal", FALSE, [num |-> v, proto |-> 255 - v, spi |-> D(v % 9, 26)]), C("Transform", FALSE, TrTV(1 + (v % 5), v * 257, 14, v)) >> : v \in 0..255 }
+  \* selectors whose addresses have contents a builder might look into, every protocol id
+  \cup { << C(f, TRUE, [x |-> 0]), C("IndividualTrafficSelector", FALSE, sl[1]) >> : f \in {"TrafficSelectorInitiator", "TrafficSelectorResponder"}, sl \in { l \in SelAddrLists : Len(l) = 1 } }
+  \cup { << C("TrafficSelectorInitiator", TRUE, [x |-> 0]), C("IndividualTrafficSelector", FALSE, IF v % 2 = 0 THEN Sel4(v, v * 256, v, 44) ELSE Sel6(v, v, v * 256 + v, 43)) >> : v \in 0..255 }
+  \* octet-string arguments with edge contents
+  \cup UNION { EdgeProgs(Edge(cl, n, n), cl) : cl \in EdgeSet, n \in {1, 5} }
+
 \* the Reset of each sub-container in the middle of building its payload (fixed programs: in the free exploration they multiply the
 \* programs a hundredfold), with a payload in front that must stay as it is
 SR(l, k) == C("SubReset", FALSE, [lvl |-> l, c |-> k])
@@ -112,7 +148,7 @@ ResetPrograms ==
 EditPrograms == { << c, C("Edit", TRUE, [x |-> 0]), c >> : c \in { d \in TopCalls : d.rep } }
 
 Init == \/ cont = << >> /\ calls = << >> /\ failed = FALSE
-        \/ calls \in SweepPrograms \cup EditPrograms \cup ResetPrograms /\ cont = Final(<< >>, calls) /\ failed = TRUE
+        \/ calls \in SweepPrograms \cup ScalarSweeps \cup EditPrograms \cup ResetPrograms /\ cont = Final(<< >>, calls) /\ failed = TRUE
         \/ calls \in { << C("HeaderSweep", TRUE, [x |-> k]) >> : k \in 1..NHeaderSweeps } /\ cont = << >> /\ failed = TRUE
 Build(c) == /\ CallEnabled(cont, c)
             /\ cont' = ApplyCall(cont, c).cont
